@@ -778,3 +778,40 @@ pub fn c15_unit(rep: &mut Report, thorough: bool) {
     rep.set("unit_gate_entropy_states", json!(ents.len()));
     rep.set("unit_calls", json!(total.calls));
 }
+
+// ------------------------------------------------------------------------------------------------ replays
+
+fn ent_from_json(v: &serde_json::Value) -> Ent {
+    match v["bytes_hex"].as_str() {
+        Some(h) => Ent::Bytes(lexer::unhex(h)),
+        None => Ent::Seed(v["seed"].as_u64().unwrap_or(0)),
+    }
+}
+
+/// re-execute a unit-level replay file (kinds "mutator", "adapter", "typeconfusion")
+pub fn replay(v: &serde_json::Value) -> i32 {
+    let e = ent_from_json(&v["entropy"]);
+    let prop = v["property"].as_str().unwrap_or("");
+    let mut t = Tally::default();
+    println!("entropy state: {}", e.describe());
+    match v["kind"].as_str() {
+        Some("adapter") => c18_one(&e, &mut t),
+        Some("typeconfusion") => c16_typeconfusion(&e, &mut t),
+        Some("mutator") => {
+            let Some(mk) = Mk::from_name(v["mutator"].as_str().unwrap_or("")) else { return 2 };
+            let uns = v["unsafe"].as_bool().unwrap_or(false);
+            println!("mutator: {} (unsafe={uns}), method {}, value {}, rate {}", mk.name(), v["method"], v["value"], v["rate"]);
+            if prop == "C15" {
+                c15_unit_one(mk, uns, &e, &mut t);
+            } else {
+                c16_mutator(mk, uns, &e, &mut t);
+            }
+        }
+        _ => return 2,
+    }
+    for (c, m, _) in &t.bad {
+        println!("FINDING {prop} {c}: {m}");
+    }
+    println!("{} calls re-executed, {} findings", t.calls, t.bad.len());
+    (!t.bad.is_empty()) as i32
+}
